@@ -48,7 +48,7 @@ def plan(tier, seed):
 
 def mandatory(tier):
     out = [f"loss/{n}" for n in POINTWISE + ["ncc_loss", "lcc_loss", "wlcc_loss", "mi_loss", "nmi_loss", "dice", "tversky"]]
-    out += [f"mask_shape/{m}" for m in MASK_SHAPES] + ["modules", "D/2", "D/3", "dice/absent_label", "wlcc/source_target_masks", "modules/norm_spellings", "soft_mask", "overlap_reductions", "max_difference/nested", "overlap/binarize", "mi_sampled/N1", "mi_sampled/11"]
+    out += [f"mask_shape/{m}" for m in MASK_SHAPES] + ["modules", "D/2", "D/3", "dice/absent_label", "wlcc/source_target_masks", "modules/norm_spellings", "soft_mask", "overlap_reductions", "max_difference/nested", "overlap/binarize", "local/even_kernel", "mi_sampled/N1", "mi_sampled/11"] + [f"overlap/weight_shape/{f}/{t_}" for f in ("N...", "N1...", "NC...") for t_ in ("multiclass", "binary")]
     return out
 
 
@@ -210,6 +210,16 @@ def run_item(ctx, item):
                 close("wlcc_two_masks_symmetric", w_swap, w_mean, "wlcc_loss/two_masks", rel=1e-4)
                 both = (sm * tm).expand_as(w_none)
                 close("wlcc_two_masks_mean_is_masked_mean_of_none", w_mean, w_none.double().sum() / both.double().sum() if float(both.sum()) > 0 else w_mean, "wlcc_loss/two_masks", rel=1e-4)
+    # even window sizes (the documentation only says the 'none' output then differs in shape from the input)
+    for name in ("lcc_loss", "wlcc_loss"):
+        fn = getattr(LF, name)
+        kse = int(rng.choice([2, 4]))
+        with ctx.guard(f"{name}(even kernel)", key=f"exc/{name}/even-kernel", kernel_size=kse, **info):
+            ctx.bucket("local/even_kernel")
+            ve = fn(x, y, kernel_size=kse)
+            ctx.true("local_even_kernel_range", -1e-4 <= float(ve) <= 1 + 1e-4, key=f"{name}/even-kernel/range", value=float(ve), **info)
+            close("local_even_kernel_identity", fn(x, x, kernel_size=kse), torch.zeros(()), f"{name}/even-kernel/identity", rel=1e-3)
+            close("local_even_kernel_symmetric", fn(y, x, kernel_size=kse), ve, f"{name}/even-kernel/symmetry", rel=1e-4)
     # ------------------------------------------------------------------ MI / NMI
     x1, y1, z1 = x[:, :1].contiguous(), y[:, :1].contiguous(), z[:, :1].contiguous()
     bins = int(rng.choice([8, 16, 32]))
@@ -280,6 +290,26 @@ def run_item(ctx, item):
         interw = (seg * seg2 * w).double().reshape(N, C, -1).sum(-1)
         wantw = 2 * interw / ((seg * w).double().reshape(N, C, -1).sum(-1) + (seg2 * w).double().reshape(N, C, -1).sum(-1))
         close("weighted_dice_definition", scw, wantw, "dice/weight")
+        # every documented weight shape - (N, ..., X), (N, 1, ..., X), (N, C, ..., X) - for multi-class and for binary
+        # single-channel predictions: the weighted definition with the weight broadcast over the channels
+        wn1 = masks["N1"]
+        for tag, p_, q_ in (("multiclass", seg, seg2), ("binary", seg[:, :1].contiguous(), seg2[:, :1].contiguous())):
+            Cc = p_.shape[1]
+            tag = "binary" if Cc == 1 else tag
+            forms = {"N...": wn1[:, 0], "N1...": wn1, "NC...": wn1.expand(N, Cc, *wn1.shape[2:]).contiguous()}
+            for form, wt in forms.items():
+                with ctx.guard("tversky_index(weight)", key=f"exc/tversky/weight_shape={form}/{tag}", **info):
+                    # (Tversky with alpha = beta = 1/2 on binary inputs is the weighted Dice; dice_score itself documents
+                    # the full (N, C, ..., X) weight shape only)
+                    got_w = LF.tversky_index(p_, q_, weight=wt, reduction="none")
+                    if form == "NC...":
+                        close("weighted_dice_accepts_full_weight_shape", LF.dice_score(p_, q_, weight=wt, reduction="none"), got_w, f"dice/weight_shape/{tag}", weight_shape=form)
+                    we = wn1.expand(N, Cc, *wn1.shape[2:])
+                    iw = (p_ * q_ * we).double().reshape(N, Cc, -1).sum(-1)
+                    ww = 2 * iw / ((p_ * we).double().reshape(N, Cc, -1).sum(-1) + (q_ * we).double().reshape(N, Cc, -1).sum(-1))
+                    ok_rows = ((p_ * we).double().reshape(N, Cc, -1).sum(-1) + (q_ * we).double().reshape(N, Cc, -1).sum(-1)) > 0
+                    close("weighted_overlap_accepts_documented_weight_shape", got_w[ok_rows], ww[ok_rows], f"tversky/weight_shape/{tag}", weight_shape=form)
+                    ctx.bucket(f"overlap/weight_shape/{form}/{tag}")
         ssc = LF.dice_score(soft, soft2, reduction="none")
         close("soft_dice_symmetric", LF.dice_score(soft2, soft, reduction="none"), ssc, "dice/symmetry")
         ctx.true("soft_dice_range", bool(((ssc >= 0) & (ssc <= 1 + 1e-6)).all()), key="dice/range", **info)
